@@ -14,7 +14,7 @@ import (
 func init() { Registry["C02"] = c02 }
 
 func c02(p *core.Prog, r *core.Report) {
-	r.Explain = "Decides structure, not CRC values: (R1) every argument byte written into a fragment is added to the running checksum: each site that writes argument bytes into fragment contents adds the same operand to the checksum; (R2) every flushed fragment is stamped: finish() updates the reserved checksum bytes with Sum() on all paths and precedes every flush; (R3) the receiver verifies every fragment: every path of the fragment parser to its success return passes the type-constancy test (failing arm returns an error), adds every chunk it appends to the running checksum, and compares the received checksum bytes with Sum() by an equality test whose failing arm returns an error; (R4) pooled objects are reset: ChecksumType.New calls Reset() on the object it returns, pool Get() is called from New only, no Add/Sum follows Release in the same function, and the no-release wrapper is used only for the relay-managed checksum; (R5) registry agreement: the constructor installed in the pool of type T builds an object of type code T, crc32 uses the IEEE polynomial and crc32c the Castagnoli table, and the checksum size is crc32.Size for exactly those; (R6) relay re-stamp: when arg2 was modified, the continuation frame's chunk is added before the checksum bytes are rewritten, with the call's own checksum object. Also: on every path the relay re-stamps a continuation frame of a modified call after accumulating its chunk (an empty chunk included). A relayed call's checksum object is not used after an entombing path released it (relational: release on a path that leaves a tombstone AND a use not behind the tombstone test). The checksum-type code points equal the protocol specification's."
+	r.Explain = "Decides structure, not CRC values: (R1) every argument byte written into a fragment is added to the running checksum: each site that writes argument bytes into fragment contents adds the same operand to the checksum; (R2) every flushed fragment is stamped: finish() updates the reserved checksum bytes with Sum() on all paths and precedes every flush; (R3) the receiver verifies every fragment: every path of the fragment parser to its success return passes the type-constancy test (failing arm returns an error), adds every chunk it appends to the running checksum, and compares the received checksum bytes with Sum() by an equality test whose failing arm returns an error; (R4) pooled objects are reset: ChecksumType.New calls Reset() on the object it returns, pool Get() is called from New only, no Add/Sum follows Release in the same function, and the no-release wrapper is used only for the relay-managed checksum; (R5) registry agreement: the constructor installed in the pool of type T builds an object of type code T, crc32 uses the IEEE polynomial and crc32c the Castagnoli table, and the checksum size is crc32.Size for exactly those; (R6) relay re-stamp: when arg2 was modified, the continuation frame's chunk is added before the checksum bytes are rewritten, with the call's own checksum object. Also: on every path the relay re-stamps a continuation frame of a modified call after accumulating its chunk (an empty chunk included). A relayed call's checksum object is not used after an entombing path released it (relational: release on a path that leaves a tombstone AND a use not behind the tombstone test). The checksum-type code points equal the protocol specification's. A message's checksum object is released only by its owner (fragment writer / reader, or the relayer where it finishes the item); ChecksumSize is 0 / 4 / 4 / 4 for none / crc32 / farmhash / crc32c."
 	r.NotDecided = "numerical CRC values and the detection of every single-byte corruption (properties of CRC32, not of code shape)."
 	r.Rule("C02-R1", "E6 sameOperand", 2, "written argument bytes are checksummed")
 	r.Rule("C02-R2", "E6 paths", 2, "every flushed fragment carries Sum()")
